@@ -341,9 +341,15 @@ def run(ctx):
                 "truncation of a saved cache at every byte. Non-trivial: histories with a crash inside save_cache or a "
                 "corruption.")
     d = ctx.tlc_dir("fileset")
+    # unbounded part: MainComplete and LoadOK of the history-free CacheInd (which CacheDesign refines, PROPERTY RefinesInd)
+    # are inductive for ANY number of saves, resets, crashes, restarts over six entries (Apalache); negative control: a
+    # save that renames the backup before it is closed
+    from vlib import apalache
+    apalache.inductive(ctx, d, "CacheInd", goals=("MainComplete", "LoadOK"),
+                       negative={'SaveRename == /\\ alive /\\ pc = "closed"': 'SaveRename == /\\ alive /\\ pc \\in {"written", "closed"}'})
     with open(os.path.join(d, "MCCache.cfg"), "w") as f:
         f.write("CONSTANTS Entries = %s MaxSaves = 2 MaxLen = %d\nSPECIFICATION Spec\nINVARIANT MainComplete\n"
-                "INVARIANT LoadOK\nINVARIANT RoundTrip\nINVARIANT ResetIsSaved\nINVARIANT Emit\n" % (("{1,2}", 10) if quick else ("{1,2,3}", 12)))
+                "INVARIANT LoadOK\nINVARIANT RoundTrip\nINVARIANT ResetIsSaved\nINVARIANT Emit\nPROPERTY RefinesInd\n" % (("{1,2}", 10) if quick else ("{1,2,3}", 12)))
     res = ctx.tlc(d, "CacheDesign", "MCCache.cfg", workers=1, coverage=True, timeout=1500)
     cov = res.coverage()
     never = [a for a in ("Reset", "SaveOpen", "SaveWrite", "SaveClose", "SaveRename", "Crash", "ExitSave", "Restart", "Corrupt") if cov.get(a, (0, 0))[1] == 0]
@@ -361,6 +367,13 @@ def run(ctx):
         for k in ((["temporal", "nontemporal"][n % 2],) if quick else ("temporal", "nontemporal")):
             for v in (range(7) if has_corrupt else (0,)):
                 items.append((c, k, n, v))
+    ctx.notes["histories_ending_in_a_restart"] = len(cases)
+    CAP = 150000
+    if len(items) > CAP:
+        # the model check above is exhaustive; the REPLAY of its histories is a uniform sample beyond this size
+        ctx.notes["replayed_sample_of"] = len(items)
+        items = ctx.rng.sample(items, CAP)
+        ctx.exhaustive = False
     pmap(ctx, replay, items)
     pmap(ctx, truncation_sweep, ["temporal", "nontemporal"], procs=1)
     if ctx.notes.get("crash_point_not_reached"):
